@@ -52,9 +52,9 @@ theorem C07_facts_segment :
     Facts.layouts.lookup "tcpcl.TransferSegment" =
         some [("FlagsField", "flags", "size=8"), ("UInt64Field", "transfer_id", ""),
               ("UInt32FieldLenField", "ext_size",
-                "if(lambda pkt: pkt.flags & TransferSegment.Flag.START) length_of=ext_items"),
+                "if(lambda p: p.flags & TransferSegment.Flag.START) length_of=ext_items"),
               ("ExtensionListField", "ext_items",
-                "if(lambda pkt: pkt.flags & TransferSegment.Flag.START) pkt_cls=TransferExtendHeader"),
+                "if(lambda p: p.flags & TransferSegment.Flag.START) pkt_cls=TransferExtendHeader"),
               ("UInt64FieldLenField", "length", "length_of=data"), ("BlobField", "data", "")]
     ∧ Facts.enum_tcpcl_TransferSegment_Flag_END = 1 ∧ Facts.enum_tcpcl_TransferSegment_Flag_START = 2 := by
   decide
